@@ -280,8 +280,33 @@ def _class_cm_state(cls: ast.ClassDef):
     ext = meths.get("__exit__") or meths.get("__aexit__")
     if ent is None or ext is None or isinstance(ent, ast.AsyncFunctionDef) != isinstance(ext, ast.AsyncFunctionDef):
         return None
-    if set(meths) - {"__enter__", "__aenter__", "__exit__", "__aexit__", "__init__"}:
-        return None  # other methods could be called on the object: not a plain state holder
+    alias: dict = {}
+    static: set = set()
+    props: dict = {}
+    for nm_, m_ in list(meths.items()):
+        if nm_ in ("__enter__", "__aenter__", "__exit__", "__aexit__", "__init__"):
+            continue
+    for st_ in cls.body:
+        if isinstance(st_, (ast.FunctionDef, ast.AsyncFunctionDef)) and st_.name not in ("__enter__", "__aenter__", "__exit__", "__aexit__", "__init__"):
+            decos = [ast.unparse(d) for d in st_.decorator_list]
+            if decos == ["staticmethod"]:
+                static.add(st_.name)
+            elif decos == ["property"]:
+                props.setdefault(st_.name, [None, None])[0] = st_
+            elif len(decos) == 1 and decos[0] == f"{st_.name}.setter":
+                props.setdefault(st_.name, [None, None])[1] = st_
+            else:
+                return None  # other methods could be called on the object: not a plain state holder
+    for pn, (g_, s_) in props.items():
+        gb = _strip_doc(g_.body) if g_ is not None else []
+        if g_ is None or len(gb) != 1 or not isinstance(gb[0], ast.Return) or not (isinstance(gb[0].value, ast.Attribute) and isinstance(gb[0].value.value, ast.Name) and gb[0].value.value.id == g_.args.args[0].arg):
+            return None
+        fld_ = gb[0].value.attr
+        if s_ is not None:
+            sb_ = _strip_doc(s_.body)
+            if not (len(s_.args.args) == 2 and len(sb_) == 1 and isinstance(sb_[0], ast.Assign) and len(sb_[0].targets) == 1 and isinstance(sb_[0].targets[0], ast.Attribute) and isinstance(sb_[0].targets[0].value, ast.Name) and sb_[0].targets[0].value.id == s_.args.args[0].arg and sb_[0].targets[0].attr == fld_ and isinstance(sb_[0].value, ast.Name) and sb_[0].value.id == s_.args.args[1].arg):
+                return None
+        alias[pn] = fld_
     eb = _strip_doc(ent.body)
     if not all(isinstance(x, ast.Pass) or (isinstance(x, ast.Return) and (x.value is None or (isinstance(x.value, ast.Name) and x.value.id == ent.args.args[0].arg) or (isinstance(x.value, ast.Constant) and x.value.value is None))) for x in eb):
         return None
@@ -325,13 +350,15 @@ def _class_cm_state(cls: ast.ClassDef):
                 return None
     else:
         return None
-    # every use of self in the exit body is self.<field>
+    # every use of self in the exit body is self.<field> (or a property that stands for one, or a static method)
+    if any(f_ not in order for f_ in alias.values()):
+        return None
     for b in body:
-        attrs_ok = {id(n.value) for n in ast.walk(b) if isinstance(n, ast.Attribute) and isinstance(n.value, ast.Name) and n.value.id == selfn and n.attr in order}
+        attrs_ok = {id(n.value) for n in ast.walk(b) if isinstance(n, ast.Attribute) and isinstance(n.value, ast.Name) and n.value.id == selfn and (n.attr in order or n.attr in alias or n.attr in static)}
         for n in ast.walk(b):
             if isinstance(n, ast.Name) and n.id == selfn and id(n) not in attrs_ok:
                 return None
-    return ext, selfn, body, order, defaults, init, stored
+    return ext, selfn, body, order, defaults, init, stored, alias, static, cls.name
 
 
 class _FieldToLocal(ast.NodeTransformer):
@@ -402,7 +429,7 @@ class _StateCMDesugar(ast.NodeTransformer):
             call = it.context_expr
             if not (isinstance(call, ast.Call) and isinstance(call.func, ast.Name) and call.func.id in self.classes):
                 continue
-            ext, selfn, xbody, order, defaults, init, stored = self.classes[call.func.id]
+            ext, selfn, xbody, order, defaults, init, stored, alias, static, cname_ = self.classes[call.func.id]
             if isinstance(ext, ast.AsyncFunctionDef) != isinstance(w, ast.AsyncWith):
                 continue
             v = it.optional_vars.id if isinstance(it.optional_vars, ast.Name) else None
@@ -427,7 +454,7 @@ class _StateCMDesugar(ast.NodeTransformer):
                 continue
             # every use of v in the function is v.<field>
             if v is not None:
-                fine = {id(n.value) for n in ast.walk(fn) if isinstance(n, ast.Attribute) and isinstance(n.value, ast.Name) and n.value.id == v and n.attr in order}
+                fine = {id(n.value) for n in ast.walk(fn) if isinstance(n, ast.Attribute) and isinstance(n.value, ast.Name) and n.value.id == v and (n.attr in order or n.attr in alias)}
                 uses = [n for n in ast.walk(fn) if isinstance(n, ast.Name) and n.id == v and n is not it.optional_vars]
                 if any(id(n) not in fine for n in uses):
                     continue
@@ -445,7 +472,7 @@ class _StateCMDesugar(ast.NodeTransformer):
                     continue
                 if sum(1 for f2 in order if isinstance(given[f2], ast.Name) and given[f2].id == g0.id) != 1:
                     continue
-                st_lines = [s_.end_lineno or s_.lineno for s_ in ast.walk(fn) if isinstance(s_, ast.stmt) and v is not None and any(isinstance(n, ast.Attribute) and isinstance(n.value, ast.Name) and n.value.id == v and n.attr == fld and isinstance(n.ctx, ast.Store) for n in ast.walk(s_)) and not isinstance(s_, (ast.With, ast.AsyncWith, ast.Try, ast.If, ast.FunctionDef, ast.AsyncFunctionDef))]
+                st_lines = [s_.end_lineno or s_.lineno for s_ in ast.walk(fn) if isinstance(s_, ast.stmt) and v is not None and any(isinstance(n, ast.Attribute) and isinstance(n.value, ast.Name) and n.value.id == v and alias.get(n.attr, n.attr) == fld and isinstance(n.ctx, ast.Store) for n in ast.walk(s_)) and not isinstance(s_, (ast.With, ast.AsyncWith, ast.Try, ast.If, ast.FunctionDef, ast.AsyncFunctionDef))]
                 first_store = min(st_lines) if st_lines else None
                 reads = [n for n in ast.walk(fn) if isinstance(n, ast.Name) and n.id == g0.id and isinstance(n.ctx, ast.Load)]
                 if first_store is None or all(n.lineno <= first_store for n in reads):
@@ -464,7 +491,13 @@ class _StateCMDesugar(ast.NodeTransformer):
             own_locals = {n.id for b in xb for n in ast.walk(b) if isinstance(n, ast.Name) and isinstance(n.ctx, ast.Store)}
             ren = {nm: f"__cm{k}_x_{nm}" for nm in own_locals}
             ren.update(direct)
-            xb = [_Rename(ren).visit(_FieldToLocal(selfn, locs).visit(b)) for b in xb]
+            locs_all = dict(locs)
+            locs_all.update({p_: locs[f_] for p_, f_ in alias.items()})
+            for b in xb:
+                for n in ast.walk(b):
+                    if isinstance(n, ast.Attribute) and isinstance(n.value, ast.Name) and n.value.id == selfn and n.attr in static:
+                        n.value = ast.copy_location(ast.Name(id=cname_, ctx=ast.Load()), n.value)
+            xb = [_Rename(ren).visit(_FieldToLocal(selfn, locs_all).visit(b)) for b in xb]
             tr = ast.Try(body=w.body, handlers=[], orelse=[], finalbody=xb or [ast.Pass()])
             new = pre + [tr]
             for s in new:
@@ -472,7 +505,7 @@ class _StateCMDesugar(ast.NodeTransformer):
             # splice
             self._replace(fn, w, new)
             if v is not None:
-                _FieldToLocal(v, locs).visit(fn)
+                _FieldToLocal(v, locs_all).visit(fn)
         return fn
 
     @staticmethod
@@ -764,8 +797,9 @@ class _CMDesugar(ast.NodeTransformer):
     def __init__(self, tree: ast.Module) -> None:
         self.gens = {}
         self.classes = {}
+        self.mgens = {}  # generator-based managers that are methods: name -> (function, try) when the name is unique
         for n in tree.body:
-            if isinstance(n, (ast.FunctionDef,)):
+            if isinstance(n, (ast.FunctionDef, ast.AsyncFunctionDef)):
                 t = _generator_cm(n)
                 if t is not None:
                     self.gens[n.name] = (n, t)
@@ -773,6 +807,12 @@ class _CMDesugar(ast.NodeTransformer):
                 c = _class_cm(n)
                 if c is not None:
                     self.classes[n.name] = c
+                for m in n.body:
+                    if isinstance(m, (ast.FunctionDef, ast.AsyncFunctionDef)) and m.args.args:
+                        t = _generator_cm(m)
+                        if t is not None:
+                            self.mgens[m.name] = None if m.name in self.mgens else (m, t)
+        self.mgens = {k: v for k, v in self.mgens.items() if v is not None}
         self.count = 0
 
     def _rewrite(self, node):
@@ -780,11 +820,34 @@ class _CMDesugar(ast.NodeTransformer):
         if len(node.items) != 1 or node.items[0].optional_vars is not None:
             return node
         call = node.items[0].context_expr
-        if not (isinstance(call, ast.Call) and isinstance(call.func, ast.Name)):
-            return node
         import copy
 
-        if call.func.id in self.gens and isinstance(node, ast.With):
+        if isinstance(call, ast.Call) and isinstance(call.func, ast.Attribute) and isinstance(call.func.value, ast.Name) and call.func.value.id in ("self", "cls") and call.func.attr in self.mgens:
+            # `with self.manager(args):` - a generator-based manager that is a method of the class
+            fn, t = self.mgens[call.func.attr]
+            if isinstance(fn, ast.AsyncFunctionDef) != isinstance(node, ast.AsyncWith):
+                return node
+            amap = _bind(fn, call, skip_self=True)
+            if amap is None:
+                return node
+            amap = dict(amap)
+            if fn.args.args[0].arg != call.func.value.id:
+                amap[fn.args.args[0].arg] = call.func.value
+            sub = _Subst(amap)
+            handlers = []
+            for h in t.handlers:
+                h2 = copy.deepcopy(h)
+                if h2.type is not None:
+                    h2.type = sub.visit(h2.type)
+                h2.body = [sub.visit(b) for b in h2.body]
+                handlers.append(h2)
+            final = [sub.visit(copy.deepcopy(b)) for b in t.finalbody]
+            new = ast.Try(body=node.body, handlers=handlers, orelse=[], finalbody=final)
+            self.count += 1
+            return _mark(new, node)
+        if not (isinstance(call, ast.Call) and isinstance(call.func, ast.Name)):
+            return node
+        if call.func.id in self.gens and isinstance(node, ast.AsyncWith) == isinstance(self.gens[call.func.id][0], ast.AsyncFunctionDef):
             fn, t = self.gens[call.func.id]
             amap = _bind(fn, call)
             if amap is None:
@@ -844,6 +907,35 @@ def _getter_constants(tree: ast.Module) -> bool:
     if not names and not opmods:
         return False
     changed = False
+
+    def _is_getter(v) -> str | None:
+        if isinstance(v, ast.Call) and not v.keywords and len(v.args) == 1 and isinstance(v.args[0], ast.Constant) and isinstance(v.args[0].value, str) and v.args[0].value.isidentifier():
+            fn_ = v.func
+            k_ = names.get(fn_.id) if isinstance(fn_, ast.Name) else fn_.attr if isinstance(fn_, ast.Attribute) and isinstance(fn_.value, ast.Name) and fn_.value.id in opmods else None
+            if k_ == "attrgetter":
+                return v.args[0].value
+        return None
+
+    # a table of accessors, `T = {key: attrgetter("A"), ...}`, used only as `T[k](obj)`:  a table of attribute names
+    # and `getattr(obj, T[k])` at the uses
+    for st in tree.body:
+        tg = st.targets[0] if isinstance(st, ast.Assign) and len(st.targets) == 1 else st.target if isinstance(st, ast.AnnAssign) and st.value is not None else None
+        if not (isinstance(tg, ast.Name) and isinstance(st.value, ast.Dict) and st.value.values and all(k is not None for k in st.value.keys)):
+            continue
+        attrs_ = [_is_getter(v) for v in st.value.values]
+        if any(a is None for a in attrs_):
+            continue
+        tname = tg.id
+        uses = [n for n in ast.walk(tree) if isinstance(n, ast.Name) and n.id == tname and isinstance(n.ctx, ast.Load)]
+        calls = [n for n in ast.walk(tree) if isinstance(n, ast.Call) and isinstance(n.func, ast.Subscript) and isinstance(n.func.value, ast.Name) and n.func.value.id == tname and len(n.args) == 1 and not n.keywords and not isinstance(n.args[0], ast.Starred)]
+        if not uses or len(uses) != len(calls) or {id(c.func.value) for c in calls} != {id(u) for u in uses}:
+            continue
+        st.value.values = [ast.copy_location(ast.Constant(value=a), v) for a, v in zip(attrs_, st.value.values)]
+        for c in calls:
+            sub_ = c.func
+            c.func = ast.copy_location(ast.Name(id="getattr", ctx=ast.Load()), sub_)
+            c.args = [c.args[0], sub_]
+        changed = True
     for i, st in enumerate(tree.body):
         if isinstance(st, ast.Assign) and len(st.targets) == 1 and isinstance(st.targets[0], ast.Name):
             tgt, val = st.targets[0].id, st.value
@@ -887,6 +979,75 @@ def _getter_constants(tree: ast.Module) -> bool:
         tree.body[i] = fd
         changed = True
     return changed
+
+
+class _NestedGenDesugar(ast.NodeTransformer):
+    """A nested generator function that is one filtering loop over its parameter and is called once:
+
+        def pick(keys):                                   (E for k in ARG if not c)
+            for k in keys:
+                if c: continue            ->
+                yield E
+        ... pick(ARG) ...
+
+    The generator expression evaluates ARG at the same moment the call did and yields the same elements."""
+
+    def __init__(self) -> None:
+        self.count = 0
+
+    def _function(self, fn):
+        self.generic_visit(fn)
+        import copy
+
+        for g in [s for s in fn.body if isinstance(s, ast.FunctionDef) and not s.decorator_list]:
+            a = g.args
+            if len(a.args) != 1 or a.vararg or a.kwarg or a.kwonlyargs or a.defaults:
+                continue
+            body = _strip_doc(g.body)
+            if len(body) != 1 or not isinstance(body[0], ast.For) or body[0].orelse or not isinstance(body[0].iter, ast.Name) or body[0].iter.id != a.args[0].arg:
+                continue
+            lp = body[0]
+            lb = list(lp.body)
+            ifs = []
+            while lb and isinstance(lb[0], ast.If) and not lb[0].orelse and len(lb[0].body) == 1 and isinstance(lb[0].body[0], ast.Continue):
+                ifs.append(ast.copy_location(ast.UnaryOp(op=ast.Not(), operand=lb[0].test), lb[0].test))
+                lb = lb[1:]
+            if len(lb) == 1 and isinstance(lb[0], ast.If) and not lb[0].orelse and len(lb[0].body) == 1:
+                ifs.append(lb[0].test)
+                lb = lb[0].body
+            if len(lb) != 1 or not (isinstance(lb[0], ast.Expr) and isinstance(lb[0].value, ast.Yield) and lb[0].value.value is not None):
+                continue
+            if any(isinstance(n, (ast.Yield, ast.YieldFrom, ast.Await, ast.Return)) for t_ in ifs for n in ast.walk(t_)):
+                continue
+            uses = [n for n in ast.walk(fn) if isinstance(n, ast.Name) and n.id == g.name and isinstance(n.ctx, ast.Load)]
+            calls = [n for n in ast.walk(fn) if isinstance(n, ast.Call) and isinstance(n.func, ast.Name) and n.func.id == g.name and len(n.args) == 1 and not n.keywords and not isinstance(n.args[0], ast.Starred)]
+            if len(uses) != 1 or len(calls) != 1 or uses[0] is not calls[0].func:
+                continue
+            if any(n is calls[0] for n in ast.walk(g)):
+                continue
+            c = calls[0]
+            ge = ast.GeneratorExp(elt=lb[0].value.value, generators=[ast.comprehension(target=lp.target, iter=c.args[0], ifs=ifs, is_async=0)])
+            ast.copy_location(ge, c)
+            for n in ast.walk(ge):
+                if not hasattr(n, "lineno"):
+                    ast.copy_location(n, c)
+
+            class _Sw(ast.NodeTransformer):
+                def visit_Call(s2, node):
+                    if node is c:
+                        return ge
+                    return s2.generic_visit(node)
+
+                def visit_FunctionDef(s2, node):
+                    return node if node is g else s2.generic_visit(node)
+
+            fn.body = [s for s in fn.body if s is not g]
+            _Sw().visit(fn)
+            self.count += 1
+        return fn
+
+    visit_FunctionDef = _function
+    visit_AsyncFunctionDef = _function
 
 
 def _partial_names(tree: ast.Module) -> tuple[set, set]:
@@ -1177,6 +1338,10 @@ class _Unsupported(Exception):
 
 def desugar(tree: ast.Module) -> ast.Module:
     changed = _getter_constants(tree)
+    if any(isinstance(n, ast.Yield) for n in ast.walk(tree)):
+        ng = _NestedGenDesugar()
+        tree = ng.visit(tree)
+        changed = changed or ng.count > 0
     if "partial" in {n.attr if isinstance(n, ast.Attribute) else getattr(n, "id", None) for n in ast.walk(tree) if isinstance(n, (ast.Name, ast.Attribute))}:
         changed = _partial_constants(tree) or changed
         pm = _PartialMethodDesugar(tree)
@@ -1195,7 +1360,7 @@ def desugar(tree: ast.Module) -> ast.Module:
             tree = sc.visit(tree)
             changed = changed or sc.count > 0
         cm = _CMDesugar(tree)
-        if cm.gens or cm.classes:
+        if cm.gens or cm.classes or cm.mgens:
             tree = cm.visit(tree)
             changed = changed or cm.count > 0
         gm = _GeneralCMDesugar(tree)
